@@ -7,7 +7,7 @@ import GT.Lemmas.FSALang
 import GT.Lemmas.FSAMult
 import GT.Lemmas.FSARename
 import GT.Lemmas.FSARec
-import GT.Lemmas.FSARlp
+import GT.Lemmas.FSARlp2
 
 set_option linter.unusedSectionVars false
 
@@ -261,22 +261,33 @@ theorem recurrent_greatest {s : FSA V L} (hs : s.WF) :
 
 /-! ## the shortest-path version -/
 
-/-- `remove_long_paths(root, edge_ties)` — soundness.  Whenever the call returns, the result is a
-well-formed automaton on the same vertex set all of whose edges are edges of the original
-automaton leading from one breadth-first level to the next (`dist` is the `distance` dictionary of
-the loop; the root is at level 0).
-
-Partial: the clause "keeps *exactly* the edges lying on shortest paths" also needs (i) the levels
-are the graph distances from the root and (ii) with `edge_ties` every edge with
-`dist(head) = dist(tail) + 1` is kept / without it a spanning tree of them.  Both are covered by the
-oracle `rlp_oracle` (independent BFS) and the correspondence only. -/
-theorem removeLongPaths_sound_partial {s : FSA V L} (hs : s.WF) (root : Option V) (ties : Bool)
+/-- **`remove_long_paths(root, edge_ties)` keeps exactly the edges lying on shortest paths from the
+root.**  Whenever the call returns `(H, dist)` (`dist` is the loop's `distance` dictionary) for the
+root `r` — the given one or, for `root=None`, the first start vertex — then: `H` is a well-formed
+automaton on the same vertex set (with an empty start list, as coded); `dist[x] = n` iff `n` is the
+graph distance from `r` to `x`; every edge of `H` is an edge of the original automaton from a vertex
+at distance `d` to a vertex at distance `d + 1`; with `edge_ties=True` `H` has *every* such edge; with
+`edge_ties=False` every vertex reachable from `r`, other than `r`, has in `H` incoming edges from
+exactly one vertex (so `H` is a spanning tree of the shortest-path edges), and a kept tree edge
+keeps all its parallel labels. -/
+theorem removeLongPaths_shortest {s : FSA V L} (hs : s.WF) (root : Option V) (ties : Bool)
     {H : FSA V L} {dist : Dict V Nat} (h : s.removeLongPaths root ties = .ok (H, dist)) :
     H.WF ∧ H.starts = [] ∧ (∀ v, v ∈ H.vertices ↔ v ∈ s.vertices) ∧
-    (∃ r, (root = some r ∨ (root = none ∧ s.starts.head? = some r)) ∧ dist.get? r = some 0) ∧
-    ∀ v l w, H.step v l = some w →
-      s.step v l = some w ∧ ∃ d, dist.get? v = some d ∧ dist.get? w = some (d + 1) :=
-  removeLongPaths_sound hs root ties h
+    ∃ r, (root = some r ∨ (root = none ∧ s.starts.head? = some r)) ∧
+      (∀ x n, dist.get? x = some n ↔ IsDist s r x n) ∧
+      (∀ v l w, H.step v l = some w →
+        s.step v l = some w ∧ ∃ d, IsDist s r v d ∧ IsDist s r w (d + 1)) ∧
+      (ties = true → ∀ v l w, H.step v l = some w ↔
+        s.step v l = some w ∧ ∃ d, IsDist s r v d ∧ IsDist s r w (d + 1)) ∧
+      (ties = false →
+        (∀ w n, IsDist s r w n → w ≠ r →
+          ∃ v, (∃ l, H.step v l = some w) ∧ ∀ v' l', H.step v' l' = some w → v' = v) ∧
+        (∀ v l w, H.step v l = some w → ∀ l', s.step v l' = some w → H.step v l' = some w)) :=
+  removeLongPaths_spec hs root ties h
+
+/- NOT PROVED: that `remove_long_paths` never raises when the root is a vertex (totality); the
+   theorem is about every call that returns.  Covered by the correspondence (the model raises
+   exactly when the implementation does on the generated automata). -/
 
 /-! ## non-in-place operations
 
